@@ -181,9 +181,30 @@ func (i *interpreter) tryMerge(fr *frame, instr *ssa.If, c *sym.Term) (continuat
 			}
 		}
 		// other branches are merged without asking the solver first: an infeasible arm only
-		// contributes an unreachable ite branch
+		// contributes an unreachable ite branch. When the answer is available without the
+		// solver (single-byte conditions, cache) an infeasible side is not merged at all, which
+		// keeps values such as buffer offsets concrete.
+		if !replay {
+			if r, ok := i.feasibleQuick(c); ok && r == sym.Unsat {
+				return 0, false
+			}
+			if r, ok := i.feasibleQuick(i.ctx.Not(c)); ok && r == sym.Unsat {
+				return 0, false
+			}
+		}
 	} else if i.specDepth >= maxSpecDepth {
 		i.mergeAbort("nesting too deep")
+	} else {
+		// nested branch: if one side is infeasible under the path condition alone (decided
+		// without the solver), just follow the other side
+		if r, ok := i.feasibleQuick(c); ok && r == sym.Unsat {
+			fr.prevBlock, fr.block = fr.block, fr.block.Succs[1]
+			return kJump, true
+		}
+		if r, ok := i.feasibleQuick(i.ctx.Not(c)); ok && r == sym.Unsat {
+			fr.prevBlock, fr.block = fr.block, fr.block.Succs[0]
+			return kJump, true
+		}
 	}
 	pd := i.pdomOf(fr.fn)
 	bi := fr.block.Index
@@ -238,7 +259,10 @@ func (i *interpreter) tryMerge(fr *frame, instr *ssa.If, c *sym.Term) (continuat
 				return
 			}
 			pa, isPA := r.(pathAbort)
-			if !isPA || pa.kind != abMerge {
+			// any path-ending event raised inside the speculative region (exit, assumption,
+			// unsupported operation, ...) abandons the merge: the forked execution meets it
+			// again with the arm's guard in the path condition
+			if !isPA || pa.kind == abBudget || pa.kind == abKill {
 				i.specDepth = 0
 				i.specGuard = nil
 				i.sideConds = nil
